@@ -337,6 +337,48 @@ Theorem C18_gen_metadata_store_close : forall s e, s_c s = CSvc ->
 Proof. exact gen_ms_close. Qed.
 Print Assumptions C18_gen_metadata_store_close.
 
+(* the coordinator: start-once like the tickers; its polling loop ends on a stop request, also one that arrives
+   during a failed poll, and otherwise re-arms its timer after every poll, failed or not *)
+Theorem C18_gen_coordinator_start_once : forall s, s_g s = GLaunched ->
+  exists s1, step (cfg_new KOnce) s GEnter = Some s1 /\
+  match g_coord_start (v_started s) with
+  | ([], RetO 1) => s_g s1 = GSend MErr /\ v_started s1 = v_started s
+  | ([1; 2; 3], RetO 0) => s_g s1 = GActive /\ v_started s1 = true
+  | _ => False
+  end.
+Proof. exact gen_coord_start_once. Qed.
+Print Assumptions C18_gen_coordinator_start_once.
+
+Theorem C18_gen_coordinator_run : forall p m t c,
+  g_coord_run = ([1; 2; 3; 4; 5; 6], Fall) /\
+  g_coord_run_body false true p m t c = ([], RetU) /\
+  g_coord_run_body true false true true t c = ([1], RetU) /\
+  ((t > c)%Z -> g_coord_run_body true false p false t c = ([1; 2], Fall)) /\
+  ((t <= c)%Z -> g_coord_run_body true false p false t c = ([1; 3], Fall)) /\
+  ((t > c)%Z -> g_coord_run_body true false false m t c = ([1; 2], Fall)) /\
+  ((t <= c)%Z -> g_coord_run_body true false false m t c = ([1; 3], Fall)).
+Proof. exact gen_coord_run. Qed.
+Print Assumptions C18_gen_coordinator_run.
+
+Theorem C18_gen_coordinator_close : forall s, s_c s = CSvc -> v_started s = true -> v_stopped s = false ->
+  g_coord_close = ([1; 2; 3; 4], RetO 0) /\
+  exists s1, step (cfg_new KOnce) s CSvcL = Some s1 /\ v_stopreq s1 = true /\ v_stopped s1 = true /\ s_c s1 = CWait CNil /\
+  (g_active (s_g s1) = true -> step (cfg_new KOnce) s1 CWaitL = None).
+Proof. exact gen_coord_close. Qed.
+Print Assumptions C18_gen_coordinator_close.
+
+(* the shared runner: flag-based Start / Close; a Close that finds the flag clear is refused and does nothing *)
+Theorem C18_gen_runner_lifecycle : forall s, s_c s = CSvc ->
+  g_runner_start true = ([], RetO 1) /\ g_runner_start false = ([1; 2; 3], RetO 0) /\
+  exists s1, step (cfg_new KOnce) s CSvcL = Some s1 /\
+  match g_runner_close (negb (v_started s && negb (v_stopped s))) (v_started s && negb (v_stopped s)) with
+  | ([], RetO 1) => s_c s1 = CSig CSvcErr /\ v_stopreq s1 = v_stopreq s
+  | ([1; 2; 3; 4], RetO 0) => s_c s1 = CWait CNil /\ v_stopreq s1 = true /\ v_stopped s1 = true
+  | _ => False
+  end.
+Proof. exact gen_runner_lifecycle. Qed.
+Print Assumptions C18_gen_runner_lifecycle.
+
 (* plugin.Close closes every recoverer in order; startServices launches every recoverer *)
 Theorem C18_gen_plugin_close :
   g_plugin_close = ([1], RetO 1) /\ g_plugin_close_body = ([1], Fall) /\ g_plugin_start_body = ([1], Fall).
